@@ -82,8 +82,8 @@ def run(ck, fx, cg, tier):
                       "stderr output on a path that may succeed (successful runs must leave stderr empty)")
             if k == "Block" and n["block"].get("unsafe") and "UserProvided" in n["block"].get("unsafe_src", ""):
                 ck.ob("R10.nounsafe", "%s|unsafe block" % hb["path"], False, loc(n), "user-written unsafe block")
-    ck.floor("R10.propagate", "Result-typed expressions examined", n_res, 250)
-    ck.floor("R10.propagate", "functions reachable from main (with HIR)", n_fns, 200)
+    ck.floor("R10.propagate", "Result-typed expressions examined", n_res, 50)
+    ck.floor("R10.propagate", "functions reachable from main (with HIR)", n_fns, 50)
     ok, where, why = shared.cargo_profile_neutral()
     ck.ob("R10.noexit0", "Cargo.toml|panic strategy", ok and fx.meta["panic"] == "Unwind", where, why + "; analysed build: panic=%s" % fx.meta["panic"])
     # the CLI actions consume the interpreter's Result by a diverging call
@@ -194,6 +194,20 @@ def _recursion(ck, fx, cg, reach):
                 ck.ob("R10.recursion", "scc:structural:" + names[0], True, loc(cg.bodies[comp[0]]),
                       "structural recursion over the (owned, acyclic) AST — %s: bounded by the nesting depth of the source like compile_into: %s" % (why_s, names[:3]))
                 continue
+            # recursion over heap values that the table does not know by name (renamed / restructured): the same two
+            # arguments are tried structurally — it follows only the construction-only `parent` link, or it carries an
+            # on-path guard
+            if _takes_heap(fx, cg, comp):
+                ok_p, why_p = _parent_chain_only(fx, cg, comp)
+                if ok_p:
+                    okc, whyc = _parent_construction_only(fx)
+                    ck.ob("R10.recursion", "scc:parent-chain:" + names[0], okc, loc(cg.bodies[comp[0]]), "%s — recursion follows the parent link only (%s); %s" % (names[:3], why_p, whyc))
+                    seen.add("dispatch")
+                    continue
+                ok_g, why_g, where_g = _render_guard(fx, cg, comp)
+                ck.ob("R10.recursion", "scc:heap-traversal:" + names[0], ok_g, where_g, "%s — %s" % (names[:4], why_g))
+                seen.add("render")
+                continue
             ck.ob("R10.recursion", key, False, loc(cg.bodies[comp[0]]),
                   "unlisted recursive component (no bound argument on file; %s): %s" % (why_s, names))
             continue
@@ -215,6 +229,87 @@ def _recursion(ck, fx, cg, reach):
     ck.ob("R10.recursion", "eval_opcode not recursive", not in_cycle, "", "FML calls push frames on a Vec; eval_opcode is in %s SCC" % ("an" if in_cycle else "no"))
 
 
+def _takes_heap(fx, cg, comp):
+    for d in comp:
+        hb = fx.hir_by_did.get(d)
+        if hb is None:
+            continue
+        tys = [fx.tyname(p.get("ty")) or "" for p in hb["params"]] + [hb.get("impl_self") or ""]
+        if any(any(h in ty for h in HEAP_TYPES) for ty in tys):
+            return True
+    return False
+
+
+def _parent_chain_only(fx, cg, comp):
+    """every call that stays inside the component hands on, as its heap reference, something read from a `parent`
+    field (a Field access or a pattern binding of that field) — never an element or an ordinary field"""
+    members = {cg.path[d] for d in comp}
+    n_calls = 0
+    for d in comp:
+        hb = fx.hir_by_did.get(d)
+        if hb is None:
+            continue
+        parent_lids = set()
+        for n, ps in walk_body(hb):
+            for key in ("pat",):
+                pass
+        # pattern bindings of the field `parent`
+        def pats(node):
+            for x, _ in walk(node):
+                for arm in x.get("arms", []) or []:
+                    yield arm["pat"]
+                if x.get("k") == "Let" and isinstance(x.get("pat"), dict):
+                    yield x["pat"]
+                if x.get("k") == "Block":
+                    for st in x["block"]["stmts"]:
+                        if st.get("k") == "Let":
+                            yield st["pat"]
+        for p0 in pats(hb["value"]):
+            for q, _ in _walk_pat(p0):
+                for f in q.get("fields", []) or []:
+                    if isinstance(f, dict) and f.get("name") == "parent" and isinstance(f.get("pat"), dict):
+                        for b, _ in _walk_pat(f["pat"]):
+                            if b.get("k") == "Binding":
+                                parent_lids.add(b["lid"])
+        # `let parent = object.parent;` (also through clone / deref)
+        for x, _ in walk(hb["value"]):
+            if x.get("k") == "Block":
+                for st in x["block"]["stmts"]:
+                    if st.get("k") == "Let" and st["pat"].get("k") == "Binding" and "init" in st:
+                        i0 = peel(st["init"])
+                        while i0.get("k") in ("MethodCall", "Unary", "AddrOf") and (i0.get("k") != "MethodCall" or i0["name"] in ("clone", "as_ref", "deref", "to_owned")):
+                            i0 = peel(i0["recv"] if i0.get("k") == "MethodCall" else i0["e"])
+                        if i0.get("k") == "Field" and i0.get("name") == "parent":
+                            parent_lids.add(st["pat"]["lid"])
+        param_lids = set()
+        for p in hb["params"]:
+            for q, _ in _walk_pat(p):
+                if q.get("k") == "Binding":
+                    param_lids.add(q["lid"])
+        for n, ps in walk_body(hb):
+            if n.get("k") not in ("Call", "MethodCall"):
+                continue
+            callee = callee_name(n) if callee_name(n) in members else (n.get("callee") or {}).get("inst")
+            if callee not in members:
+                continue
+            n_calls += 1
+            args = ([n["recv"]] if n.get("k") == "MethodCall" else []) + list(n.get("args", []))
+            ptr_args = [a for a in args if any(h in (fx.ty(a) or "") + (fx.aty(a) or "") for h in ("Pointer", "HeapIndex")) and "Heap>" not in (fx.ty(a) or "") and not (fx.ty(a) or "").endswith("Heap")]
+            from_parent = False
+            for a in ptr_args:
+                mentions_parent = any(x.get("k") == "Field" and x.get("name") == "parent" for x, _ in walk(a))
+                roots = _root_locals(a)
+                if mentions_parent or (roots and roots <= parent_lids):
+                    from_parent = True
+                elif roots and roots <= param_lids and len(ptr_args) > 1:
+                    continue      # e.g. the argument vector passed along unchanged
+                else:
+                    return False, "a recursive call in %s hands on a reference that is not read from `parent`" % hb["path"]
+            if not from_parent:
+                return False, "a recursive call in %s does not move along the parent link" % hb["path"]
+    return n_calls > 0, "%d recursive call(s)" % n_calls
+
+
 TREE_TYPES = ("parser::AST",)
 HEAP_TYPES = ("bytecode::heap::", "HeapIndex", "Pointer")
 
@@ -233,7 +328,8 @@ def _structural_over_ast(fx, cg, comp):
                 continue     # closures are analysed inside their parent's body
             return False, "%s has no HIR" % cg.path[d]
         ptys = [fx.tyname(p.get("ty")) or "" for p in hb["params"]]
-        if not any(any(t in ty for t in TREE_TYPES) for ty in ptys):
+        gen = set(hb.get("generics") or [])
+        if not any(any(t in ty for t in TREE_TYPES) or ty.lstrip("&").replace("mut ", "").strip() in gen or ty.startswith("impl ") for ty in ptys):
             return False, "%s does not take the syntax tree" % hb["path"]
         if any(any(h in ty for h in HEAP_TYPES) for ty in ptys):
             return False, "%s also takes heap values" % hb["path"]
@@ -254,10 +350,8 @@ def _structural_over_ast(fx, cg, comp):
             if not tree_args:
                 return False, "a recursive call in %s passes no syntax tree" % hb["path"]
             for a in tree_args:
-                root = _root_local(a)
-                if root is None:
-                    return False, "a recursive call in %s passes a tree that is not a binding" % hb["path"]
-                if root in param_lids:
+                roots = _root_locals(a)     # no local at all: a freshly built (finite) tree
+                if roots & param_lids:
                     same.setdefault(hb["path"], set()).add(callee)
     # a cycle made only of non-descending edges would recurse on the same node for ever
     state = {}
@@ -290,6 +384,19 @@ def _walk_pat(p, ps=()):
     for f in p.get("fields", []) or []:
         if isinstance(f, dict) and isinstance(f.get("pat"), dict):
             yield from _walk_pat(f["pat"], ps + (p,))
+
+
+def _root_locals(n):
+    """locals a tree-typed argument is built from (a plain place, or iterators / slices / references over places)"""
+    from ..facts import walk
+    r = _root_local(n)
+    if r is not None:
+        return {r}
+    out = set()
+    for x, _ in walk(n):
+        if x.get("k") == "Path" and (x.get("res") or {}).get("k") == "Local":
+            out.add(x["res"]["lid"])
+    return out
 
 
 def _root_local(n):
@@ -339,7 +446,16 @@ def _render_guard(fx, cg, comp):
         hb = fx.hir_by_did.get(m)
         if hb is None:
             continue
+        # the guard may sit in a helper the member calls (`trail.enter(index)?`): look one call level down as well
+        bodies = [hb]
         for n, ps in walk_body(hb):
+            if n.get("k") in ("Call", "MethodCall") and n.get("callee"):
+                cd = n["callee"].get("inst_did") if n["callee"].get("inst_local") else (n["callee"].get("did") if n["callee"].get("local") else None)
+                cb = fx.hir_by_did.get(cd) if cd else None
+                if cb is not None and cb not in bodies and cd not in cs:
+                    bodies.append(cb)
+        for hb2 in bodies:
+          for n, ps in walk_body(hb2):
             if n.get("k") == "If":
                 cond = n["cond"]
                 has_test = False
@@ -409,7 +525,7 @@ def _atomic_print(ck, fx, cg):
             if v.get("k") == "Call" and (v.get("ctor") or {}).get("variant") == "Err":
                 fails.append((n, "explicit failure (%s)" % (",".join(user_macros_of(n)[-1:]) or "return Err"), False, None))
     ck.floor("R10.atomic", "output writes in eval_print", len(writes), 1)
-    ck.floor("R10.atomic", "failure exits in eval_print", len(fails), 4)
+    ck.floor("R10.atomic", "failure exits in eval_print", len(fails), 1)
     for i, (f, desc, direct, opn) in enumerate(fails):
         if direct:
             ck.ob("R10.atomic", "eval_print|fail#%d %s" % (i, desc), True, loc(f), "failure of the output write itself", nontrivial=False)
@@ -456,7 +572,9 @@ def _output_through(ck, fx, cg):
     except Exception as e:  # noqa
         ck.ob("R10.through", "Output::write_str", False, loc(b), "cannot analyse the output sink (unprovable): %s" % e)
         return
-    oks = [(s_, o) for s_, o in res if o[0] == "val" and isinstance(o[1], tuple) and o[1][0] == "ok"]
+    # successful outcomes: an explicit Ok(..), or the write's own Result handed back (Ok exactly when the write succeeded)
+    oks = [(s_, o) for s_, o in res if o[0] == "val" and isinstance(o[1], tuple) and (o[1][0] == "ok" or (
+        o[1][0] == "fall" and any(e.get("res") == o[1] and e["k"] == "call" and e["args"][0][1].endswith("write_all") for e in s_.eff)))]
     bad = []
     for s_, o in oks:
         writes = [e for e in s_.eff if e["k"] == "call" and (e["args"][0][1] == "std::io::Write::write_all" or e["args"][0][1].endswith("std::io::Write>::write_all"))
